@@ -926,10 +926,115 @@ func (m multiRec) coq() string {
 }
 
 // ---------- leader changes with more store records than one page of Storage.LoadStores (100) ----------
+type fchange struct {
+	K      string // state labels delete new
+	ID     uint64
+	State  int
+	PD     bool
+	Labels []lab
+	P      payload
+}
 type hstep struct {
-	K    string // op | restart | bulk
-	Op   op
-	Bulk []payload
+	K       string // op | restart | bulk | reelect
+	Op      op
+	Bulk    []payload
+	Foreign []fchange
+}
+
+func (c fchange) coq() string {
+	switch c.K {
+	case "state":
+		return fmt.Sprintf("FState %s %s %s", coqfmt.ZU(c.ID), stateCoq[c.State], coqfmt.Bool(c.PD))
+	case "labels":
+		return fmt.Sprintf("FLabels %s %s", coqfmt.ZU(c.ID), labsCoq(c.Labels))
+	case "delete":
+		return "FDelete " + coqfmt.ZU(c.ID)
+	}
+	return "FNew " + c.P.coq()
+}
+
+// reelect: this member steps down (its BasicCluster survives), ANOTHER leader changes the storage, this member is elected again
+// without a process restart: LoadClusterInfo runs into the non-empty cache of its earlier term
+func (w *world) reelect(fs []fchange) {
+	w.rc.Stop()
+	other := core.NewStorage(w.kb.Inner) // the other leader's own Storage over the same kv
+	for _, c := range fs {
+		switch c.K {
+		case "state", "labels":
+			v, err := w.kb.Inner.Load(fmt.Sprintf("raft/s/%020d", c.ID))
+			if err != nil || v == "" {
+				panic(fmt.Sprint("foreign change of an unknown store ", c.ID, err))
+			}
+			m := &metapb.Store{}
+			if err := m.Unmarshal([]byte(v)); err != nil {
+				panic(err)
+			}
+			if c.K == "state" {
+				m.State, m.PhysicallyDestroyed = metapb.StoreState(c.State), c.PD
+			} else {
+				m.Labels = mkLabels(c.Labels)
+			}
+			if err := other.SaveStore(m); err != nil {
+				panic(err)
+			}
+		case "delete":
+			if err := other.DeleteStore(&metapb.Store{Id: c.ID}); err != nil {
+				panic(err)
+			}
+		case "new":
+			if err := other.SaveStore(c.P.store()); err != nil {
+				panic(err)
+			}
+		}
+	}
+	if err := w.rc.Start(w.s); err != nil {
+		panic(err)
+	}
+}
+
+func (w *world) runReelect(r *rng.R) restartRec {
+	boot := payload{ID: 1, Addr: "a1", Ver: "4.0.0"}
+	w.reset("0.0.0", boot, false)
+	rec := restartRec{In: caseIn{CV: "0.0.0", Boot: boot}}
+	rec.Obs = append(rec.Obs, w.snapshot("ROk"))
+	opStep := func(o op) {
+		rec.Obs = append(rec.Obs, w.exec(&o))
+		rec.Steps = append(rec.Steps, hstep{K: "op", Op: o})
+	}
+	for id := uint64(2); id <= 5; id++ {
+		opStep(op{K: "put", P: payload{ID: id, Addr: fmt.Sprintf("a%d", id), Ver: "4.0.0", Labels: genLabels(r)}})
+	}
+	opStep(op{K: "remove", ID: 5})
+	opStep(op{K: "check"}) // store 5 is a tombstone
+	opStep(op{K: "remove", ID: 4, PD: r.Pct(50)})
+	// every store has sent a heartbeat AFTER the one that was persisted: the cached copy is fresher than the stored one
+	for k := 0; k < 2; k++ {
+		for id := uint64(1); id <= 4; id++ {
+			opStep(op{K: "heartbeat", ID: id})
+		}
+	}
+	fs := []fchange{
+		{K: "state", ID: 2, State: 1, PD: r.Pct(50)},                  // the other leader took store 2 offline ...
+		{K: "state", ID: 4, State: 2, PD: false},                      // ... buried store 4 ...
+		{K: "labels", ID: 3, Labels: []lab{{"zone", "moved"}}},        // ... relabelled store 3 ...
+		{K: "delete", ID: 5},                                          // ... removed the tombstone record of store 5 ...
+		{K: "new", P: payload{ID: 7, Addr: "a7", Ver: "4.0.0"}},        // ... and registered store 7
+	}
+	if r.Pct(50) {
+		fs[1].PD = true
+	}
+	w.reelect(fs)
+	rec.Obs = append(rec.Obs, w.snapshot("ROk"))
+	rec.Steps = append(rec.Steps, hstep{K: "reelect", Foreign: fs})
+	opStep(op{K: "heartbeat", ID: 4})                                                        // a tombstone now: refused
+	opStep(op{K: "put", Grpc: true, P: payload{ID: 4, Addr: "a4", Ver: "4.0.0"}})               // refused
+	opStep(op{K: "up", ID: 2})
+	opStep(op{K: "put", P: payload{ID: 8, Addr: "a5", Ver: "4.0.0"}})                           // store 5 is gone: its address is free
+	opStep(op{K: "put", P: payload{ID: 9, Addr: "a7", Ver: "4.0.0"}})                           // store 7 exists: clash
+	w.restart()
+	rec.Obs = append(rec.Obs, w.snapshot("ROk"))
+	rec.Steps = append(rec.Steps, hstep{K: "restart"})
+	return rec
 }
 type restartRec struct {
 	In    caseIn // boot only
@@ -1013,6 +1118,12 @@ func (rc restartRec) coq() string {
 			hs[i] = "HOp (" + st.Op.coq() + ")"
 		case "restart":
 			hs[i] = "HRestart"
+		case "reelect":
+			fs := make([]string, len(st.Foreign))
+			for j, c := range st.Foreign {
+				fs[j] = c.coq()
+			}
+			hs[i] = "HReelect " + coqfmt.List(fs)
 		case "bulk":
 			ps := make([]string, len(st.Bulk))
 			for j, p := range st.Bulk {
@@ -1166,6 +1277,18 @@ func gen(r *rng.R, sh *shadow, malformed bool) op {
 		if r.Pct(12) {
 			p.Labels = append(p.Labels, lab{"engine", "tiflash"})
 		}
+		if r.Pct(15) && p.Addr != "" {
+			// another spelling of an address (case, surrounding blanks): a DIFFERENT address as far as PD is concerned; if the
+			// code canonicalises addresses it has to do so before the duplicate-address check
+			switch r.Intn(3) {
+			case 0:
+				p.Addr = strings.ToUpper(p.Addr)
+			case 1:
+				p.Addr = p.Addr + " "
+			default:
+				p.Addr = " " + strings.ToUpper(p.Addr[:1]) + p.Addr[1:]
+			}
+		}
 		return op{K: "put", Grpc: r.Pct(50), P: p, F: genFault(r, p.ID, 1, fp+6)}
 	case 1:
 		id := pickID(r, sh, nil)
@@ -1255,7 +1378,7 @@ func main() {
 	corpus := flag.String("corpus", "", "json file of fixed cases run first")
 	replay := flag.String("replay", "", "json file with cases (or an evidence replay file): run and print observations")
 	npairs := flag.Int("pairs", 80, "number of overlapping-operation cases")
-	nrestart := flag.Int("restarts", 4, "number of leader-change cases with more store records than one LoadStores page (130 / 230, dense / sparse ids)")
+	nrestart := flag.Int("restarts", 6, "number of leader-change cases with more store records than one LoadStores page (130 / 230, dense / sparse ids)")
 	nmulti := flag.Int("multi", 60, "number of cases with several failing writes in one operation (restoring writes included)")
 	flag.Parse()
 
@@ -1453,8 +1576,14 @@ func main() {
 		for k := 0; k < *nrestart; k++ {
 			n := []int{130, 230}[(k/2)%2]
 			sparse := k%2 == 1
-			rc := w.runRestart(master.Fork(uint64(k)), n, sparse)
-			R.Count(fmt.Sprintf("restart-class:%d-records:%s", n+1, map[bool]string{true: "sparse-ids", false: "dense-ids"}[sparse]))
+			var rc restartRec
+			if k%5 == 4 || *nrestart-k <= 2 {
+				rc = w.runReelect(master.Fork(uint64(k)))
+				R.Count("restart-class:re-election-into-a-non-empty-cache")
+			} else {
+				rc = w.runRestart(master.Fork(uint64(k)), n, sparse)
+				R.Count(fmt.Sprintf("restart-class:%d-records:%s", n+1, map[bool]string{true: "sparse-ids", false: "dense-ids"}[sparse]))
+			}
 			txt := rc.coq()
 			R.Case(txt, true)
 			if err := rf.Add(txt); err != nil {
